@@ -9,7 +9,7 @@ from ..choice import Chooser
 ID = 'C10'
 LEVEL = 'exploration'
 RULE = ('system under test: the unmodified w2c2 sources built with clang -O1 -fsanitize=address,undefined -fno-sanitize-recover, '
-        'run out of process (so main.c option/path handling is included). Inputs: valid modules from every generator mode '
+        'run out of process (so main.c option/path handling is included), and a second build under clang MemorySanitizer (every full module, a third of the truncations: uses of uninitialised memory). Inputs: valid modules from every generator mode '
         '(expr, ctrl, calls, mem, inst, consts), the valid spec-suite modules in their original encoding, names modules (long / '
         'non-ASCII / punctuation-laden import, export and function names; name sections naming all, some or no functions, '
         'duplicates) and stress shapes (thousands of functions / locals / br_table targets / data segments, nesting depth up to '
@@ -78,7 +78,7 @@ def check_prefix(tr):
     return None
 
 
-def viol(kind_key, wb, opts, cut, tag, tr, ref=None):
+def viol(kind_key, wb, opts, cut, tag, tr, ref=None, variant='asan'):
     kind, key = kind_key
     sig = '%s:%s' % (kind, key)
     return {'signature': sig,
@@ -86,12 +86,12 @@ def viol(kind_key, wb, opts, cut, tag, tr, ref=None):
             'replay': {'kind': 'c10', 'wasm_hex': (wb if cut is None else wb[:cut]).hex() if len(wb) < 200000 else None,
                        # large (stress) modules are kept compressed: a finding must stay replayable whatever its size
                        'wasm_zhex': zlib.compress(wb if cut is None else wb[:cut], 9).hex() if len(wb) >= 200000 else None,
-                       'tag': tag, 'options': list(opts), 'cut': cut, 'signature': sig,
+                       'tag': tag, 'options': list(opts), 'cut': cut, 'signature': sig, 'variant': variant,
                        'ref_hex': ref.hex() if ref is not None and len(ref) < 200000 else None,
                        'stderr': tr.err.decode(errors='replace')[-2500:] if isinstance(tr.err, bytes) else ''}}
 
 
-def minimise(wb, opts, cut, sig, is_prefix, ref=None):
+def minimise(wb, opts, cut, sig, is_prefix, ref=None, variant='asan'):
     """shrink the option list (and for full modules nothing else: the bytes are the reproducer)"""
     best = list(opts)
     i = 0
@@ -111,9 +111,9 @@ def minimise(wb, opts, cut, sig, is_prefix, ref=None):
         o = [y for x in trial for y in x]
         if '-r' in o and ref is None:
             continue
-        tr = run_w2c2(wb if cut is None else wb[:cut], o, ref=ref)
+        tr = run_w2c2(wb if cut is None else wb[:cut], o, variant=variant, ref=ref)
         bad = check_prefix(tr) if is_prefix else check_full(tr)
-        if bad and '%s:%s' % bad == sig:
+        if bad and sig in ('%s:%s' % bad, '%s:msan:%s' % bad, '%s:truncated-reference:%s' % bad):
             keep = trial
     return [y for x in keep for y in x]
 
@@ -123,16 +123,16 @@ def task(wid, seed, params):
            'infra': [], 'extra': collections.Counter()}
     seen = set()
 
-    def report(bad, wb, opts, cut, tag, tr, is_prefix, ref=None):
+    def report(bad, wb, opts, cut, tag, tr, is_prefix, ref=None, variant='asan'):
         sig = '%s:%s' % bad
         if sig in seen or len(res['violations']) >= 4:
             return
         seen.add(sig)
         try:
-            opts = minimise(wb, opts, cut, sig, is_prefix, ref)
+            opts = minimise(wb, opts, cut, sig, is_prefix, ref, variant)
         except Exception:
             pass
-        res['violations'].append(viol(bad, wb, opts, cut, tag, tr, ref if '-r' in opts else None))
+        res['violations'].append(viol(bad, wb, opts, cut, tag, tr, ref if '-r' in opts else None, variant))
 
     for ci in range(params['ncases']):
         ch = Chooser(seed * 1000003 + ci)
@@ -179,6 +179,16 @@ def task(wid, seed, params):
         if bad:
             report(bad, wb, opts, None, tag, tr, False, ref)
             continue
+        # the same run under MemorySanitizer: a read of uninitialised memory that decides a branch, an index or an output byte
+        # is an undefined memory operation AddressSanitizer cannot see (absent sections, unnamed functions, unset option fields)
+        if len(wb) < 400000:
+            trm = run_w2c2(wb, opts, variant='msan', ref=ref)
+            res['evaluations'] += 1
+            res['classes']['msan_full'] += 1
+            bad = check_full(trm)
+            if bad:
+                report((bad[0], 'msan:' + bad[1]), wb, opts, None, tag, trm, False, ref, 'msan')
+                continue
         if ref is not None and len(ref) > 10 and ref is not wb:
             # robustness: the reference file itself truncated (the module stays valid)
             for k in sorted(set(1 + ch.below(len(ref) - 1) for _ in range(3))):
@@ -204,9 +214,11 @@ def task(wid, seed, params):
         for k in cuts:
             if k <= 0 or k >= len(wb):
                 continue
-            tr = run_w2c2(wb[:k], topts, ref=tref)
+            variant = 'msan' if (k + ci) % 3 == 0 else 'asan'
+            tr = run_w2c2(wb[:k], topts, variant=variant, ref=tref)
             res['evaluations'] += 1
             res['classes']['truncation'] += 1
+            res['classes']['truncation_' + variant] += 1
             inside = any(s < k < e for sid, s, e in secs)
             if inside:
                 res['nontrivial'].add(f1.hx((wb[:k], tuple(topts))))
@@ -215,7 +227,7 @@ def task(wid, seed, params):
                 res['classes']['prefix_accepted'] += 1
             bad = check_prefix(tr)
             if bad:
-                report(bad, wb, topts, k, tag, tr, True, tref)
+                report((bad[0], ('msan:' if variant == 'msan' else '') + bad[1]), wb, topts, k, tag, tr, True, tref, variant)
     res['extra'] = dict(res['extra'])
     return res
 
@@ -227,14 +239,14 @@ def replay(rp):
     ref = bytes.fromhex(rp['ref_hex']) if rp.get('ref_hex') else None
     if '-r' in rp['options'] and ref is None:
         return False
-    tr = run_w2c2(wb, rp['options'], ref=ref)
+    tr = run_w2c2(wb, rp['options'], variant=rp.get('variant', 'asan'), ref=ref)
     bad = check_prefix(tr) if rp.get('cut') is not None else check_full(tr)
     return bad is not None
 
 
 def plan(tier, seed):
     if tier == 'quick':
-        return [{'ncases': 25, 'ncuts': 24, 'exhaustive_below': 400, 'exhaustive_every': 6} for _ in range(32)]
+        return [{'ncases': 40, 'ncuts': 24, 'exhaustive_below': 400, 'exhaustive_every': 6} for _ in range(32)]
     return [{'ncases': 120, 'ncuts': 64, 'exhaustive_below': 4096, 'exhaustive_every': 6} for _ in range(64)]
 
 
